@@ -200,19 +200,29 @@ impl TypeAggregator {
         // Merge the interface's exports
         for (name, source_kind) in &types[id].exports {
             if let Some(target_kind) = self.types[existing].exports.get(name).copied() {
-                // Nested instances are merged rather than chosen between: the merged
-                // instance must satisfy both requirements, so it needs the union of
-                // the exports of the two nested instances. The merge is done on a copy
-                // so that other uses of the target's instance type are left as they are.
-                if let (ItemKind::Instance(target), ItemKind::Instance(source)) =
-                    (target_kind, *source_kind)
-                {
+                // Nested instances, and `type` exports of interface type, are merged
+                // rather than chosen between: the merged item must satisfy both
+                // requirements, so it needs the union of the exports of the two
+                // interfaces. The merge is done on a copy so that other uses of the
+                // target's interface are left as they are.
+                let nested: Option<(_, _, fn(InterfaceId) -> ItemKind)> =
+                    match (target_kind, *source_kind) {
+                        (ItemKind::Instance(target), ItemKind::Instance(source)) => {
+                            Some((target, source, ItemKind::Instance))
+                        }
+                        (
+                            ItemKind::Type(Type::Interface(target)),
+                            ItemKind::Type(Type::Interface(source)),
+                        ) => Some((target, source, |id| ItemKind::Type(Type::Interface(id)))),
+                        _ => None,
+                    };
+                if let Some((target, source, wrap)) = nested {
                     let merged = self.types.add_interface(self.types[target].clone());
                     self.merge_interface(merged, types, source, checker)
                         .with_context(|| format!("mismatched type for export `{name}`"))?;
                     self.types[existing]
                         .exports
-                        .insert(name.clone(), ItemKind::Instance(merged));
+                        .insert(name.clone(), wrap(merged));
                     continue;
                 }
 
